@@ -1,7 +1,7 @@
 #!/usr/bin/env python3
 """Development tool: run the rules of all 20 properties on many patches in parallel, each applied to a worker's own scratch copy of
 /repo with its own cargo target and fact cache (nothing under /repo or /verif/.cache is touched).
-usage: tools/patches_par.py [--jobs N] seeds | benign | <patch files...>
+usage: tools/patches_par.py [--jobs N] seeds | benign | mutants | <patch files...>
   seeds  : every seeded/C*/patch.diff  -> prints the rules that fire; a seed is OK when a rule of its own property fires
   benign : every seeded/benign/B*.diff -> OK when nothing fires
 The registered checks are `./check Cxx`; tools/seedcheck.sh applies a patch to /repo itself (the prescribed way) for single seeds."""
@@ -42,12 +42,58 @@ def _work(patch):
         res['t'] = round(time.time() - t0, 1)
 
 
+
+def _work_mutant(m):
+    """m = (name, prop, path, old, new, expect) from mutants/spec.py; textual replacement in the worker's scratch copy."""
+    from analysis import factgen
+    import shutil
+    name, prop, path, old, new, expect = m
+    repo = mutsweep._W['repo']
+    src = os.path.join(repo, path)
+    res = {'name': name, 'prop': prop, 'expect': expect}
+    t0 = time.time()
+    try:
+        text = open(src).read()
+        if text.count(old) != 1:
+            res['status'] = 'stale'
+            return res
+        open(src, 'w').write(text.replace(old, new))
+        try:
+            paths, info = factgen.ensure_facts('all', repo=repo, target_dir=mutsweep._W['tdir'])
+        except factgen.BuildFailed as e:
+            res['status'] = 'nocompile'
+            return res
+        fired, crashes = mutsweep.run_rules(paths)
+        rules = sorted({f.split('|')[0] for f in fired})
+        res['rules'] = rules
+        res['crashes'] = crashes
+        if expect is None:
+            res['status'] = 'ok' if not rules and not crashes else 'FALSE-ALARM'
+        else:
+            res['status'] = 'ok' if any(r.startswith(prop + ':' + expect) for r in rules) else 'MISSED'
+        shutil.rmtree(os.path.dirname(paths[0]), ignore_errors=True)
+        return res
+    finally:
+        subprocess.run(['rsync', '-a', '--delete', '--exclude', 'target', '--exclude', '.git', mutsweep.REPO + '/', repo + '/'])
+        res['t'] = round(time.time() - t0, 1)
+
+
 def main():
     args = sys.argv[1:]
     jobs = 6
     if args and args[0] == '--jobs':
         jobs = int(args[1]); args = args[2:]
     mode = args[0] if args else 'seeds'
+    if mode == 'mutants':
+        import selftest
+        spec = selftest.load_spec()
+        bad = 0
+        with mp.Pool(jobs, initializer=mutsweep._init_worker, initargs=(os.path.join(V, '.cache', 'target'), None)) as pool:
+            for res in pool.imap_unordered(_work_mutant, spec):
+                if res['status'] != 'ok': bad += 1
+                print('%-11s %-50s %-4s %s %s' % (res['status'], res['name'], res['prop'] or 'all', ' '.join(res.get('rules', []))[:120], ' '.join(res.get('crashes', []))[:100]), flush=True)
+        print('mutants: %d, %d not ok' % (len(spec), bad))
+        return 0
     if mode == 'seeds':
         patches = sorted(glob.glob(V + '/seeded/C*/patch.diff'))
     elif mode == 'benign':
